@@ -28,6 +28,8 @@ M = [
  ("m17-c13-watcher-polls-with-ticker", "C13", "clean", V2, "\t\tselect {\n\t\tcase <-ctx.Done():\n\t\t\tsimYield(\"watcher.cancelled\", simWatcher)\n\t\t\tatomic.StoreUint32(&done, 1)\n\t\tcase <-closing:\n\t\t\treturn\n\t\t}", "\t\ttick := time.NewTicker(time.Millisecond)\n\t\tdefer tick.Stop()\n\t\tfor {\n\t\t\tselect {\n\t\t\tcase <-tick.C:\n\t\t\t\tif ctx.Err() != nil {\n\t\t\t\t\tsimYield(\"watcher.cancelled\", simWatcher)\n\t\t\t\t\tatomic.StoreUint32(&done, 1)\n\t\t\t\t\treturn\n\t\t\t\t}\n\t\t\tcase <-closing:\n\t\t\t\treturn\n\t\t\t}\n\t\t}", "the watcher polls ctx.Err() on a 1 ms ticker instead of waiting on ctx.Done(): cancellation is honoured within a millisecond, everything else unchanged - needs simulated time to pass while workers compute"),
  ("m18-c11-digest-cached-by-length", "C11", "violation", V1, "\th := Hash.New()\n\th.Write(data)\n\tpowDigest := h.Sum(nil)\n\n\t// stop when", "\tpowDigest, cached := digestCache[len(data)]\n\tif !cached {\n\t\th := Hash.New()\n\t\th.Write(data)\n\t\tpowDigest = h.Sum(nil)\n\t\tdigestCache[len(data)] = powDigest\n\t}\n\n\t// stop when", "package-level digest cache keyed by the data LENGTH only: the second Mine call of a process with different data of the same length mines for the first data - needs two calls in one process (replayed with a prelude)"),
  ("m19-c13-done-flag-in-worker-struct", "C13", "violation", V2, "type Worker struct {\n\tnumWorkers int\n}", "type Worker struct {\n\tnumWorkers int\n\tdone       uint32 // stop flag of the current Mine call\n}", "the stop flag lives in the Worker and is never reset: the SECOND Mine call on the same Worker finds it raised and returns the cancellation error although its context was never cancelled - needs a Worker reused across calls"),
+ ("m23-c13-caller-sleeps-45s-after-cancelled-join", "C13", "violation", V2, "\twg.Wait()\n\tsimYield(\"mine.joined\", simCaller)\n", "\twg.Wait()\n\tif ctx.Err() != nil {\n\t\ttime.Sleep(45 * time.Second) // let the machine cool down before the next attempt\n\t}\n\tsimYield(\"mine.joined\", simCaller)\n", "after a cancelled search the caller sleeps 45 s before it returns: every goroutine of the call sits on a timer, nothing hangs, nothing leaks - only simulated time tells (slow-after-cancel)"),
+ ("m24-c13-caller-sleeps-200ms-after-cancelled-join", "C13", "clean", V2, "\twg.Wait()\n\tsimYield(\"mine.joined\", simCaller)\n", "\twg.Wait()\n\tif ctx.Err() != nil {\n\t\ttime.Sleep(200 * time.Millisecond)\n\t}\n\tsimYield(\"mine.joined\", simCaller)\n", "the same with 200 ms: still a short bounded time"),
  ("m20-c11-one-trit-fewer", "C11", "violation", V1, "\tfor i := consts.HashTrinarySize - n; i < consts.HashTrinarySize; i++ {", "\tfor i := consts.HashTrinarySize - n + 1; i < consts.HashTrinarySize; i++ {", "lane test checks one trailing trit fewer than required"),
  ("m21-c11-overshoot-zeros", "C11", "clean", V1, "\tfor zeros <= consts.HashTrinarySize && score(zeros) < targetScore {", "\tfor zeros <= consts.HashTrinarySize-1 && score(zeros) <= targetScore {", "requires one zero more at exact boundaries: slower but sound"),
  ("m22-c11-estimate-only", "C11", "violation", V1, "\tfor zeros <= consts.HashTrinarySize && score(zeros) < targetScore {\n\t\tzeros++\n\t}\n", "", "upward correction dropped: targets just above 3^k/len come out one zero short"),
@@ -56,6 +58,8 @@ M[-1] = M[-1][:2] + ("clean",) + M[-1][3:6] + ("equivalent restructuring of the 
 # m09 needs the value to be used
 FIX = {"m19-c13-done-flag-in-worker-struct": [("\t\tdone    uint32\n", ""), ("atomic.StoreUint32(&done, 1)\n\t\tcase <-closing:", "atomic.StoreUint32(&w.done, 1)\n\t\tcase <-closing:"), ("sufficientTrailing, target, &done, &counter)", "sufficientTrailing, target, &w.done, &counter)"), ("\t\t\tatomic.StoreUint32(&done, 1)\n\t\t\tsimYield(\"worker.send\", wid)", "\t\t\tatomic.StoreUint32(&w.done, 1)\n\t\t\tsimYield(\"worker.send\", wid)")],
        "m18-c11-digest-cached-by-length": [("const ln3 = ", "var digestCache = map[int][]byte{}\n\nconst ln3 = ")],
+       "m23-c13-caller-sleeps-45s-after-cancelled-join": [("\t\"sync/atomic\"\n", "\t\"sync/atomic\"\n\t\"time\"\n")],
+       "m24-c13-caller-sleeps-200ms-after-cancelled-join": [("\t\"sync/atomic\"\n", "\t\"sync/atomic\"\n\t\"time\"\n")],
        "m17-c13-watcher-polls-with-ticker": [("\t\"sync/atomic\"\n", "\t\"sync/atomic\"\n\t\"time\"\n")],
        "m15-c13-finders-serialised-by-mutex": [("\t\twg      sync.WaitGroup\n", "\t\twg      sync.WaitGroup\n\t\tfindMu  sync.Mutex\n")],
        "m16-c13-mutex-deadlock-on-cancel": [("\t\twg      sync.WaitGroup\n", "\t\twg      sync.WaitGroup\n\t\tfindMu  sync.Mutex\n"), ("results = make(chan uint64, w.numWorkers)", "results = make(chan uint64)")],
